@@ -111,12 +111,18 @@ class SqlSem:
         self.dialect = dialect
         self.pre = pre            # precondition sink (only for things SQL leaves undefined)
         self.result_order = None
+        self.notes = set()
 
     # ---------------------------------------------------------------- queries
     def run(self, stmts):
         if len(stmts) != 1 or "Query" not in stmts[0]:
             raise Unsupported("expected a single query statement")
-        return self.query(stmts[0]["Query"], {})
+        q = stmts[0]["Query"]
+        if self.dialect == "sqlite":
+            q = fix_sqlite_precedence(q)
+        elif mixed_cmp_chain(q) and fix_sqlite_precedence(q) != q:
+            raise Unsupported("unparenthesised chain mixing =/<> with </>: engines disagree on its reading")
+        return self.query(q, {})
 
     def query(self, q, env):
         env = dict(env)
@@ -474,7 +480,10 @@ class SqlSem:
             if not idx:
                 raise BindError(f"no such column: {'.'.join(parts)}")
             if len(idx) > 1:
-                raise BindError(f"ambiguous column name: {'.'.join(parts)}")
+                quals = {ctx.cols[k].qual for k in idx}
+                if len(quals) > 1 or self.dialect != "sqlite":
+                    raise BindError(f"ambiguous column name: {'.'.join(parts)}")
+                self.notes.add("duplicate column name inside one sub-query resolved to the first (SQLite rule)")
             if ctx.members is not None and not getattr(ctx, "in_agg", False) and len(ctx.rows) == 1 and not hasattr(ctx, "leader_ok"):
                 pass
             return ctx.rows[i].cells[idx[0]]
@@ -528,6 +537,11 @@ class SqlSem:
             return out
         if k == "Function":
             return self.func(v, ctx, i)
+        if k == "Floor":
+            fld = v.get("field")
+            if isinstance(fld, dict) and fld.get("DateTimeField") == "NoDateTime":
+                return v_floor(self.expr(v["expr"], ctx, i))
+            raise Unsupported(f"FLOOR field {fld}")
         if k == "Cast":
             raise Unsupported("CAST")
         if k == "InList":
@@ -542,7 +556,8 @@ class SqlSem:
         if op in ("Plus", "Minus", "Multiply"):
             return v_arith({"Plus": "+", "Minus": "-", "Multiply": "*"}[op], a, b)
         if op == "Divide":
-            if self.dialect == "generic-real":
+            if self.dialect == "generic":
+                self.notes.add("generic '/' read as real division (std.sql.prql: 'simple float division')")
                 return v_div_real(a, b)
             return v_div_sql(a, b)
         if op == "Modulo":
@@ -589,6 +604,8 @@ class SqlSem:
             return v_sign(vals[0])
         if name == "FLOOR" and len(vals) == 1:
             return v_floor(vals[0])
+        if name in ("POW", "POWER") and len(vals) == 2:
+            return v_pow(vals[0], vals[1])
         raise Unsupported(f"function {name}/{len(vals)}")
 
     def aggregate(self, name, args, members, mctx):
@@ -645,8 +662,22 @@ class SqlSem:
         def rank_of(a):
             return count_if([band(base[j], before(j, a)) for j in range(n) if j != a])
 
-        if name in ("ROW_NUMBER", "RANK"):
+        def pos_of(a):
+            """row position: peers ordered by row index (SQL leaves it open; SQLite keeps scan order)"""
+            cs = []
+            for j in range(n):
+                if j == a:
+                    continue
+                c = before(j, a)
+                if j < a:
+                    c = bor(c, bnot(before(a, j)))
+                cs.append(band(base[j], c))
+            return count_if(cs)
+
+        if name == "RANK":
             return V(F, rank_of(i) + 1, "int")
+        if name == "ROW_NUMBER":
+            return V(F, pos_of(i) + 1, "int")
         if name == "DENSE_RANK":
             cs = []
             for j in range(n):
@@ -662,16 +693,15 @@ class SqlSem:
             if len(args) > 2:
                 raise Unsupported("LAG default")
             d = off if name == "LEAD" else -off
-            ri = rank_of(i)
-            out = None
+            ri = pos_of(i)
             vals = [self.expr(args[0], ctx, j) for j in range(n)]
             out = vnull(vals[0].ty)
             for j in range(n):
-                out = v_ite(band(base[j], rank_of(j) == ri + d), vals[j], out)
+                out = v_ite(band(base[j], pos_of(j) == ri + d), vals[j], out)
             return out
         # frame membership
         fr = ws.get("window_frame")
-        mem = self.frame(fr, base, before, rank_of, ok, descs, i, n, has_order)
+        mem = self.frame(fr, base, before, pos_of, ok, descs, i, n, has_order)
         if name in ("FIRST_VALUE", "LAST_VALUE"):
             vals = [self.expr(args[0], ctx, j) for j in range(n)]
             out = vnull(vals[0].ty)
@@ -737,6 +767,61 @@ class SqlSem:
                 out.append(band(*c))
             return out
         raise Unsupported(f"frame units {units}")
+
+
+CMP_HI = {"Lt", "LtEq", "Gt", "GtEq"}
+CMP_LO = {"Eq", "NotEq"}
+
+
+def fix_sqlite_precedence(node):
+    """sqlparser gives = <> < <= > >= one precedence level (left-assoc); SQLite gives < <= > >= a higher level
+    than = <>.  Re-associate every unparenthesised chain of comparison operators the way SQLite reads the
+    same token sequence.  (`Nested` nodes, i.e. explicit parentheses, delimit chains.)"""
+    if isinstance(node, list):
+        return [fix_sqlite_precedence(x) for x in node]
+    if not isinstance(node, dict):
+        return node
+    if "BinaryOp" in node and len(node) == 1 and node["BinaryOp"]["op"] in CMP_HI | CMP_LO:
+        # flatten the left-nested chain
+        ops, operands = [], []
+        cur = node
+        while isinstance(cur, dict) and "BinaryOp" in cur and len(cur) == 1 and cur["BinaryOp"]["op"] in CMP_HI | CMP_LO:
+            ops.append(cur["BinaryOp"]["op"])
+            operands.append(fix_sqlite_precedence(cur["BinaryOp"]["right"]))
+            cur = cur["BinaryOp"]["left"]
+        operands.append(fix_sqlite_precedence(cur))
+        ops.reverse()
+        operands.reverse()
+        if len(ops) == 1:
+            return {"BinaryOp": {"left": operands[0], "op": ops[0], "right": operands[1]}}
+        # first the high level, left to right
+        vals, lows = [operands[0]], []
+        for op, x in zip(ops, operands[1:]):
+            if op in CMP_HI:
+                vals[-1] = {"BinaryOp": {"left": vals[-1], "op": op, "right": x}}
+            else:
+                lows.append(op)
+                vals.append(x)
+        out = vals[0]
+        for op, x in zip(lows, vals[1:]):
+            out = {"BinaryOp": {"left": out, "op": op, "right": x}}
+        return out
+    return {k: fix_sqlite_precedence(v) for k, v in node.items()}
+
+
+def mixed_cmp_chain(node):
+    """does the tree contain an unparenthesised chain mixing {=,<>} with {<,<=,>,>=} (engine-defined reading)"""
+    if isinstance(node, list):
+        return any(mixed_cmp_chain(x) for x in node)
+    if not isinstance(node, dict):
+        return False
+    if "BinaryOp" in node and len(node) == 1 and node["BinaryOp"]["op"] in CMP_HI | CMP_LO:
+        l = node["BinaryOp"]["left"]
+        if isinstance(l, dict) and "BinaryOp" in l and len(l) == 1 and l["BinaryOp"]["op"] in CMP_HI | CMP_LO:
+            both = {node["BinaryOp"]["op"] in CMP_HI, l["BinaryOp"]["op"] in CMP_HI}
+            if len(both) == 2:
+                return True
+    return any(mixed_cmp_chain(v) for v in node.values())
 
 
 def distinct_rows(rows):
